@@ -48,6 +48,8 @@ ASSUMPTIONS = [
     "a byte written to the waker's write end makes the reactor's poll return (OS contract)",
 ]
 
+# anchors of AsyncioSelectorReactor (never inlined away); other private helpers of the class are inlined, temporaries substituted
+AK = ("__init__", "callFromThread", "callLater", "_onTimer", "_reschedule", "_moveCallLaterSooner", "crash", "stop", "run", "iterate")
 KNOWN_SIBLINGS = {"internet/base.py", "internet/asyncioreactor.py", "internet/interfaces.py"}
 
 
@@ -381,7 +383,7 @@ def check(ctx):
 
     # ---- asyncio sibling -------------------------------------------------------------------------------------------------------------------------
     with section(ctx, 'asyncio sibling'):
-        f = ctx.func(ASYNCIO, "AsyncioSelectorReactor.callFromThread")
+        f = norm_func(ctx, ASYNCIO, "AsyncioSelectorReactor", "callFromThread", AK)
         q = "twisted.internet.asyncioreactor.AsyncioSelectorReactor.callFromThread"
         ps = [a.arg for a in f.args.args]
         ctx.need(len(ps) >= 2 and f.args.vararg and f.args.kwarg, "asyncio callFromThread(self, f, *args, **kwargs)")
@@ -418,7 +420,7 @@ def check(ctx):
 
     # ---- asyncio timer --------------------
     with section(ctx, 'asyncio timer'):
-        f = ctx.func(ASYNCIO, "AsyncioSelectorReactor.callLater")
+        f = norm_func(ctx, ASYNCIO, "AsyncioSelectorReactor", "callLater", AK)
         g = ctx.cfg(f)
         q = "twisted.internet.asyncioreactor.AsyncioSelectorReactor.callLater"
         rs = gfind(g, lambda x: _is_call(x, "self._reschedule"))
@@ -437,7 +439,7 @@ def check(ctx):
                       "the timer is re-armed only for later deadlines: an earlier call (delay 0 from callFromThread) waits for the old deadline")
             w = must_pass(g, [d for d, l in g.succ[t] if l == "T"], rs, exc=False)
             ctx.check(w is None, "asyncio/timer-rescheduled", q + " | <earlier deadline>", "an earlier deadline does not re-arm the timer", witness=g.describe(w))
-        f = ctx.func(ASYNCIO, "AsyncioSelectorReactor._onTimer")
+        f = norm_func(ctx, ASYNCIO, "AsyncioSelectorReactor", "_onTimer", AK)
         g = ctx.cfg(f)
         q = "twisted.internet.asyncioreactor.AsyncioSelectorReactor._onTimer"
         ru = gfind(g, lambda x: _is_call(x, "self.runUntilCurrent"))
@@ -457,7 +459,7 @@ def _timer_coupling(ctx):
     or none is recorded, or the new deadline is earlier, the decision must be 're-arm'.  Rows excluded by
     the lemma are only dropped when the lemma holds; a writer that breaks the lemma is reported with the
     row of the table that then leaves a call unarmed."""
-    cls = ctx.cls(ASYNCIO, "AsyncioSelectorReactor")
+    cls = norm_class(ctx, ASYNCIO, "AsyncioSelectorReactor", AK)
     QA = "twisted.internet.asyncioreactor.AsyncioSelectorReactor"
     broken = []   # (construct key, description)
     nsites = 0
@@ -512,7 +514,7 @@ def _timer_coupling(ctx):
     ctx.need(nsites >= 3, "writers of _timerHandle/_scheduledAt in AsyncioSelectorReactor")
 
     # decision table of callLater's re-arm condition
-    f = ctx.func(ASYNCIO, "AsyncioSelectorReactor.callLater")
+    f = norm_func(ctx, ASYNCIO, "AsyncioSelectorReactor", "callLater", AK)
     q = f"{QA}.callLater"
     rcalls = [c for c in body_walk(f) if _is_call(c, "self._reschedule")]
     rearm_rule = ["asyncio/rearm-decision"]
@@ -640,4 +642,8 @@ SILENT = [
                  (BASE, "    def runUntilCurrent(self) -> None:\n", "    def _enqueueCall(self, f, args, kwargs) -> None:\n        entry = (f, args, kwargs)\n        self.threadCallQueue.append(entry)\n\n    def runUntilCurrent(self) -> None:\n")]),
     Silent("drain-bounded-by-islice", BASE, "            for f, a, kw in self.threadCallQueue:\n                with _threadCallHandler:\n                    f(*a, **kw)\n                count += 1\n                if count == total:\n                    break\n",
            "            for f, a, kw in islice(self.threadCallQueue, total):\n                with _threadCallHandler:\n                    f(*a, **kw)\n                count += 1\n"),
+
+    # --- second round of independent refactors
+    Silent("asyncio-rearm-decision-named", ASYNCIO, "        if self._scheduledAt is None or abs_time < self._scheduledAt:\n            self._reschedule()\n",
+           "        armedFor = self._scheduledAt\n        mustRearm = armedFor is None or abs_time < armedFor\n        if not mustRearm:\n            return dc\n        self._reschedule()\n"),
 ]
